@@ -51,6 +51,8 @@ def fresh_import():
     import oneliner
     import oneliner.config
 
+    if not os.path.realpath(oneliner.__file__).startswith(os.path.realpath(rt.REPO) + "/"):
+        raise ImportError("oneliner imported from %s, not from the tree under test %s" % (oneliner.__file__, rt.REPO))
     return oneliner, oneliner.config
 
 
